@@ -3,6 +3,8 @@
 #include <occa/utils/hash.hpp>
 #include <occa/internal/utils/string.hpp>
 #include "hproto.hpp"
+#include <thread>
+#include <atomic>
 
 static occa::hash_t obj;
 
@@ -29,6 +31,19 @@ int main() {
         // oracles: full string reads back; short string is its 16-char prefix, whichever is asked first
         occa::hash_t h2 = occa::hash(std::string(bytes));
         if (h != h2) hp::oracle("hash(ptr,n) != hash(std::string)");
+        {
+          // equal bytes, different surroundings: an exact-size heap buffer (ASan traps any over-read)
+          // and the same bytes embedded in a larger buffer followed by different bytes
+          const size_t n = bytes.size();
+          char *exact = new char[n];
+          if (n) memcpy(exact, bytes.data(), n);
+          if (occa::hash(exact, n) != h) hp::oracle("equal bytes in an exact-size buffer hash differently");
+          delete [] exact;
+          for (int pad = 0; pad < 2; ++pad) {
+            std::string big = std::string(3, (char) ('A' + pad)) + bytes + std::string(5, (char) ('x' + pad));
+            if (occa::hash(big.data() + 3, n) != h) hp::oracle("equal bytes hash differently depending on the bytes that follow them");
+          }
+        }
         std::string full = h.getFullString();
         if (occa::hash_t::fromString(full) != h) hp::oracle("fromString(getFullString(h)) != h");
         if (h.getString() != full.substr(0, 16)) hp::oracle("getString() is not the 16-char prefix of getFullString()");
@@ -51,6 +66,27 @@ int main() {
         occa::hash_t c = a ^ b;
         if (c.getString() != c.getFullString().substr(0, 16)) hp::oracle("combined hash: getString() is not the prefix");
         return show(c);
+      }
+      if (t[0] == "MT" && lanes(t, 1, 8, l)) {
+        // several threads, each with its own private hash value derived from the lanes
+        std::atomic<long> bad(0);
+        std::vector<std::thread> th;
+        for (int k = 0; k < 4; ++k) {
+          th.emplace_back([&, k]() {
+            int m[8];
+            for (int i = 0; i < 8; ++i) m[i] = (int) ((unsigned) l[i] + 7919u * (unsigned) k);
+            occa::hash_t h(m);
+            const std::string full = h.getFullString();
+            for (int it = 0; it < 400; ++it) {
+              occa::hash_t g(m);
+              std::string f = g.getFullString();
+              if (f != full || occa::hash_t::fromString(f) != g || g.getString() != full.substr(0, 16)) ++bad;
+            }
+          });
+        }
+        for (auto &x : th) x.join();
+        if (bad.load()) hp::oracle("thread-private hash values: full/short strings differ between threads (shared mutable state)");
+        return "ok";
       }
       if (t[0] == "new" && lanes(t, 1, 8, l)) { obj = occa::hash_t(l); return "ok"; }
       if (t[0] == "get" && t.size() == 1) {
